@@ -127,7 +127,7 @@ impl<T: Clone + Ord + Eq> Identifier<T> {
                 &&& (low is Some && high is Some && id_cmp(low->0@, high->0@) == Ordering::Greater ==> id_cmp(high->0@, r@) == Ordering::Less && id_cmp(r@, low->0@) == Ordering::Less)
                 &&& (low is Some && low->0@.len() > 0 && high is None ==> id_cmp(low->0@, r@) == Ordering::Less)
                 &&& (low is None && high is Some && high->0@.len() > 0 ==> id_cmp(r@, high->0@) == Ordering::Less)
-                &&& r@.len() > 0
+                &&& r@.len() > 0 && r@.last().1 == marker
             },
     { unimplemented!() }
 }
